@@ -44,6 +44,7 @@ def case_history(rep):
             L0 = float(mesh.points[:, 0].max())
             nsteps = int(rng.integers(1, 4))
             inject = rep % 3 == 1
+            by_maxiter = inject and rep % 2 == 1  # the other failure path: iteration limit exhausted (norms stay finite)
             fail_at = None
             steps = []
             last = 0.0
@@ -73,7 +74,8 @@ def case_history(rep):
                 if inject and s == nsteps - 1:
                     k = int(rng.integers(0, n))
                     move = np.array(move, dtype=float)
-                    move[k] = -4.0 * L0  # inverts the body: this substep cannot converge
+                    # inverts the body (NaN norms) or asks for a jump that cannot converge within the iteration limit
+                    move[k] = (last + 1.5 * L0) if by_maxiter else -4.0 * L0
                     ramp[bounds["move"]] = move
                     fail_at = total + k
                 steps.append(fem.Step(items, ramp=ramp, boundaries=bounds))
@@ -83,6 +85,8 @@ def case_history(rep):
             use_x0 = rep % 4 == 2
             job = fem.Job(steps, callback=lambda j, i, res: cb_log.append((j, i)))
             kw = dict(verbose=False, tol=1e-9, maxiter=10)
+            if by_maxiter:
+                kw.update(tol=1e-7, maxiter=5)
             if use_x0:
                 kw["x0"] = field.copy() if False else field
             raised = None
@@ -101,6 +105,7 @@ def case_history(rep):
             if inject:
                 if raised is not None and nyield == fail_at:
                     run.ok("trace", unit="trace:injected-failure-position", config="injected@%d" % fail_at)
+                    run.units["trace:failure-mode:" + str(raised)[:7].strip()] += 1
                 elif raised is None:
                     run.skip("trace", "injected infeasible substep converged")
                 elif nyield < fail_at:
